@@ -151,6 +151,7 @@ def run(ctx):
         for mk in (
             lambda: loops.counter_loop(N, 0, 1, "route"),
             lambda: loops.counter_loop(N, 1, 2, "ifelse", True),
+            lambda: loops.counter_loop(N, 0, 1, "route", True, exit_name="b0_done"),
             lambda: loops.accumulator_loop(N, 0),
             lambda: loops.signal_loop(N, 0, "counter"),
             lambda: loops.signal_loop(N, 1, "chat"),
